@@ -58,8 +58,16 @@ def recLt [LT K] [DecidableLT K] (a b : α × K) : Bool := decide (a.2 < b.2)
 def bruteRecords (δ : α → α → K) (pts : List α) (i : α) : List (α × K) := pts.map fun j => (j, δ i j)
 
 /-- the loop over `distances.begin() .. distances.begin()+k+1` that skips the query -/
-def bruteSelect [DecidableEq α] (i : α) (k : Nat) (out : List (α × K)) : List α :=
+def bruteLoop [DecidableEq α] (i : α) (k : Nat) (out : List (α × K)) : List α :=
   ((out.take (k + 1)).filter (fun r => r.1 ≠ i)).map (·.1)
+
+/-- `if (local_neighbors.size() > k) local_neighbors.pop_back();` -/
+def popIfLonger (k : Nat) (l : List α) : List α := if l.length > k then l.dropLast else l
+
+/-- the loop followed by the length repair (the query is missing from its k+1 closest records only if
+    all of them coincide with it) -/
+def bruteSelect [DecidableEq α] (i : α) (k : Nat) (out : List (α × K)) : List α :=
+  popIfLonger k (bruteLoop i k out)
 
 /-- every neighbour list the code can produce for sample `i` (one for each admissible `nth_element` outcome) -/
 def BruteOut [DecidableEq α] [LT K] [DecidableLT K] (δ : α → α → K) (pts : List α) (k : Nat) (i : α)
@@ -70,15 +78,49 @@ def BruteOut [DecidableEq α] [LT K] [DecidableLT K] (δ : α → α → K) (pts
 def bruteKnn [DecidableEq α] [LT K] [DecidableLT K] (δ : α → α → K) (pts : List α) (k : Nat) (i : α) : List α :=
   bruteSelect i k (nthElementExec recLt (k + 1) (bruteRecords δ pts i))
 
-/-! ### cover tree wrapper (`find_neighbors_covertree_impl`, the loop over `res[i][1..k+1]`) -/
+/-! ### cover tree wrapper (`find_neighbors_covertree_impl`, the loop over the returned candidate sets) -/
 
-/-- `cands` = `res[i][1..]`, the candidate set returned by the batch query for query point `i`.
-    `none` = the loop reads past the end of the candidate set (undefined behaviour). -/
-def coverSelect [DecidableEq α] (i : α) (k : Nat) (cands : List α) : Option (List α) :=
-  if cands.length < k + 1 then none else some ((cands.take (k + 1)).filter (fun j => j ≠ i))
+/-- Postcondition of `std::partial_sort(first, first + n, last)` with comparator `lt`: a permutation whose
+    first `n` entries are sorted and not greater than any later entry. -/
+def IsPartialSort (lt : β → β → Bool) (n : Nat) (inp out : List β) : Prop :=
+  out.Perm inp ∧ (out.take n).Pairwise (fun a b => lt b a = false) ∧
+    (∀ a ∈ out.take n, ∀ b ∈ out.drop n, lt b a = false)
 
-/-! ### VP-tree wrapper (`find_neighbors_vptree_impl`): `std::remove(.., i)` on the search result -/
+/-- executable instance: a stable sort -/
+def partialSortExec (lt : β → β → Bool) (_n : Nat) (inp : List β) : List β :=
+  inp.mergeSort (fun a b => !lt b a)
 
+/-- `candidates`: `(callback.distance(query, c), c)` for every returned candidate `c` other than the query;
+    `cands` = `res[i][1..]`, the candidate set returned by the batch query for query point `i` -/
+def coverCandidates [DecidableEq α] (δ : α → α → K) (i : α) (cands : List α) : List (K × α) :=
+  (cands.filter (fun j => j ≠ i)).map fun j => (δ i j, j)
+
+/-- `n_selected = min(k, candidates.size())`, then the first `n_selected` entries after `partial_sort` -/
+def coverTake (k : Nat) (sorted : List (K × α)) : List α := (sorted.take (min k sorted.length)).map (·.2)
+
+/-- every list the wrapper can produce from the candidate set `cands` (`lt` = `operator<` of `std::pair`) -/
+def CoverOut [DecidableEq α] (δ : α → α → K) (lt : K × α → K × α → Bool) (i : α) (k : Nat) (cands : List α)
+    (l : List α) : Prop :=
+  ∃ out, IsPartialSort lt (min k (coverCandidates δ i cands).length) (coverCandidates δ i cands) out ∧
+    l = coverTake k out
+
+/-- `operator<` of `std::pair<ScalarType, IndexType>` -/
+def pairLt [LT K] [DecidableLT K] [LT α] [DecidableLT α] (a b : K × α) : Bool :=
+  decide (a.1 < b.1) || (!decide (b.1 < a.1) && decide (a.2 < b.2))
+
+/-- executable instance -/
+def coverSelect [DecidableEq α] [LT K] [DecidableLT K] [LT α] [DecidableLT α] (δ : α → α → K) (i : α) (k : Nat)
+    (cands : List α) : List α :=
+  let c := coverCandidates δ i cands
+  coverTake k (partialSortExec pairLt (min k c.length) c)
+
+/-! ### VP-tree wrapper (`find_neighbors_vptree_impl`) -/
+
+/-- `std::remove(.., i)` + `erase` on the search result -/
 def removeSelf [DecidableEq α] (i : α) (res : List α) : List α := res.filter (fun j => j ≠ i)
+
+/-- `if (local_neighbors.size() > k) local_neighbors.erase(local_neighbors.begin());`
+    (results are ordered from the farthest to the nearest) -/
+def dropFirstIfLonger (k : Nat) (l : List α) : List α := if l.length > k then l.drop 1 else l
 
 end TapkeeVerif.Knn
